@@ -87,6 +87,31 @@ func main() {
 			e.Strs("shardErrMessageReturns", msgs, "searchShard: error-message comparisons whose branch returns")
 			e.Strs("shardReplicaOrders", order, "searchShard: the two ways idx is filled (ShuffleReplicas / not)")
 		}
+		// ---- the source of a shard answer is the source of the host that was asked
+		{
+			var fromHost, hostIdx []string
+			if fd := f.Func("Ingestor", "searchShard"); fd != nil {
+				ast.Inspect(fd.Body, func(n ast.Node) bool {
+					if as, ok := n.(*ast.AssignStmt); ok {
+						r := f.Render(as)
+						if strings.Contains(r, "searchHost(") || strings.HasPrefix(r, "host :=") || strings.HasPrefix(r, "host, ") {
+							hostIdx = append(hostIdx, r)
+						}
+					}
+					return true
+				})
+			}
+			if fd := f.Func("Ingestor", "searchHost"); fd != nil {
+				ast.Inspect(fd.Body, func(n ast.Node) bool {
+					if r, ok := n.(*ast.ReturnStmt); ok && len(r.Results) > 0 && f.Render(r.Results[0]) == "data" {
+						fromHost = append(fromHost, f.Render(r))
+					}
+					return true
+				})
+			}
+			e.Strs("shardHostAndSource", hostIdx, "searchShard: how the host of an iteration is chosen and where resp/source come from")
+			e.Strs("searchHostReturns", fromHost, "searchHost: its successful return (the source belongs to the host it queried)")
+		}
 		// ---- searchStores: which errors end the receive loop at once
 		if fd := f.Func("Ingestor", "searchStores"); fd == nil {
 			e.Missing("storesFailFast", "searchStores not found")
